@@ -37,8 +37,16 @@ def gen_desc(verif_seed: int, i: int, tier: str = "quick") -> dict:
     if not fault_free:
         r = rng.random()
         est = estimate_events(udesc, cfg)
-        if entry == "engine" and r < 0.3:
-            fl.append({"kind": rng.choice(["consumer_stop", "consumer_stop", "consumer_finish"]), "after_event": rng.randint(1, est)})
+        if entry == "engine" and r < 0.35:
+            f = {"kind": rng.choice(["consumer_stop", "consumer_stop", "consumer_finish"])}
+            if rng.random() < 0.4:
+                f["after_event"] = rng.randint(1, est)
+            else:
+                # biased stop points: suite / phase boundaries and failing scenarios (where re-runs and handlers meet)
+                f["after_type"] = rng.choice(["SuiteFinished", "FailedStatefulSuite", "FailedStatefulSuite", "SuiteStarted", "FailedScenario",
+                                              "FailedScenario", "ScenarioStarted", "PhaseStarted", "PhaseFinished", "NonFatalError"])
+                f["nth"] = rng.choice([1, 1, 1, 2, 2, 3, 4, 5])
+            fl.append(f)
         elif r < 0.6:
             if rng.random() < 0.7:
                 fl.append({"kind": "ctrl_c", "line": int(2 ** rng.uniform(0, 12.5))})
@@ -50,6 +58,16 @@ def gen_desc(verif_seed: int, i: int, tier: str = "quick") -> dict:
             if rng.random() < 0.5:
                 f["op"] = rng.choice(gen.op_keys(udesc))
             fl.append(f)
+    sched = gen.gen_schedule(rng, fault_free=fault_free)
+    if fl and fl[0].get("after_type") in ("FailedStatefulSuite", "FailedScenario"):
+        # these stop points need something to fail, and the window right after a put needs pre-emption
+        if not any(b["deviation"] in ("http500", "undocumented", "marker") for b in behaviour):
+            behaviour = behaviour + gen.gen_behaviour(rng, udesc, kinds=["http500", "marker"], p_none=0.0, max_n=1)
+            behaviour[-1]["trigger"] = {"always": True}
+        if fl[0]["after_type"] == "FailedStatefulSuite" and "stateful" not in cfg["phases"]:
+            cfg["phases"] = cfg["phases"] + ["stateful"]
+            cfg["shim"] = True
+        sched = {"kind": "targeted", "seed": rng.getrandbits(32), "p_line": rng.choice([0.01, 0.05]), "p_switch": 0.1, "p_tick": rng.choice([0.0, 0.02])}
     if cfg["entry"] == "cli":
         cfg["argv"] = cli_argv(cfg, udesc)
     return {
@@ -63,7 +81,7 @@ def gen_desc(verif_seed: int, i: int, tier: str = "quick") -> dict:
         "config": cfg,
         "behaviour": behaviour,
         "faults": fl,
-        "schedule": gen.gen_schedule(rng, fault_free=fault_free),
+        "schedule": sched,
     }
 
 
@@ -106,7 +124,7 @@ ASSUMPTIONS = [
     "requests transport only; API peer, network and clocks are simulated",
     "runs with config.shim use a harness-side Hypothesis compatibility shim so that links are followed (DESIGN 10.1-E2)",
 ]
-EXPECTED_PROBES = ["q_timeout", "consumer_stop", "ctrl_c", "internal", "join_timeout"]
+EXPECTED_PROBES = ["q_timeout", "consumer_stop", "ctrl_c", "internal"]
 
 
 def fired_faults(desc: dict, res: dict) -> dict:
@@ -155,6 +173,28 @@ class C11Profile(Profile):
         W._register_sim_marker()
         faults.install_ctrl_c(ctx)
         faults.install_internal_fault(ctx)
+        stop = next((f for f in ctx.desc.get("faults", []) if f["kind"].startswith("consumer_") and f.get("after_type")), None)
+        if stop is not None and ctx.sched.policy is not None:
+            # aim the schedule: the instant the event the stop is keyed on gets *published*, hand the baton to the
+            # consumer with high probability, so that stop() lands while the producer still sits right behind its put
+            want = stop["after_type"]
+            sched = ctx.sched
+
+            def put_hook(item) -> None:
+                name = type(item).__name__
+                st = getattr(getattr(item, "status", None), "value", None)
+                hit = (
+                    (want == "FailedStatefulSuite" and name == "SuiteFinished" and st in ("failure", "error"))
+                    or (want == "FailedScenario" and name == "ScenarioFinished" and st in ("failure", "error"))
+                    or name == want
+                )
+                if hit:
+                    sched.hot = 40
+                    sched.hot_p = 0.9
+                    sched.hot_avoid = sched.current.sid
+                    sched.probes["aimed_preemption"] += 1
+
+            sched.put_hook = put_hook
         extra = ctx.extra.get("extra_checks")
         if extra:
             ctx.config["checks"] = list(ctx.config["checks"]) + extra
